@@ -532,6 +532,12 @@ func (w *elWorld) stepped() {
 				w.logf("op%d unregister h%d", i, op.A)
 				w.handlers[op.A].active = false
 				w.handlers[op.A].unreg()
+			} else if op.A < len(w.handlers) && w.handlers[op.A].unreg != nil {
+				// the same registration is cancelled a second time (the loop's own TimeoutContext does this after a
+				// timeout event): nothing is registered under it any more, so nothing may change
+				w.logf("op%d unregister h%d again", i, op.A)
+				w.handlers[op.A].unreg()
+				w.st.Faults["unregistered-twice"]++
 			}
 		}
 	}
@@ -749,6 +755,10 @@ func (w *elWorld) runConsumer() {
 				w.handlers[op.A].active = false
 				w.mu.Unlock()
 				w.handlers[op.A].unreg()
+			} else if op.A >= 4 && op.A < len(w.handlers) && !w.handlers[op.A].active && w.handlers[op.A].unreg != nil && !w.stalledModel {
+				w.logf("op%d unregister h%d again", i, op.A)
+				w.handlers[op.A].unreg()
+				w.st.Faults["unregistered-twice"]++
 			}
 		case "stall":
 			if !w.stalledModel && !w.canceled {
